@@ -9,6 +9,7 @@ package router
 import (
 	"fmt"
 	"sort"
+	"strings"
 	"time"
 
 	"github.com/cosmos/cosmos-sdk/codec"
@@ -209,7 +210,7 @@ func genActivity(r *simcore.RNG) simcore.Step {
 	case 4:
 		return simcore.Step{Op: "advance", A: []int64{int64(r.Weighted([]int{6, 3, 2})), r.Range(1, 100000)}}
 	case 5:
-		return simcore.Step{Op: "setfee", A: []int64{r.Range(0, 7), r.Range(0, 7), r.Range(0, int64(len(takerFees)-1))}}
+		return simcore.Step{Op: "setfee", A: []int64{r.Range(0, 7), r.Range(0, 7), r.Range(0, int64(len(takerFees)-1)), int64(r.Weighted([]int{70, 30}))}}
 	case 6:
 		return simcore.Step{Op: "setwl", A: []int64{r.Range(0, 8)}}
 	case 7:
@@ -897,6 +898,16 @@ func (w *world) opSetfee(i int, st simcore.Step) {
 	in := pick(w.denoms, st.Arg(0))
 	out := pick(without(w.denoms, in), st.Arg(1))
 	fee := takerFees[int(st.Arg(2))%len(takerFees)]
+	if st.Arg(3) == 1 && len(w.refFee) > 0 {
+		// take an existing override back to the current default
+		keys := make([]string, 0, len(w.refFee))
+		for k := range w.refFee {
+			keys = append(keys, k)
+		}
+		sort.Strings(keys)
+		k := keys[int(st.Arg(0))%len(keys)]
+		in, out, fee = k[:strings.Index(k, ">")], k[strings.Index(k, ">")+1:], w.refDefault
+	}
 	msg := &pmtypes.MsgSetDenomPairTakerFee{Sender: w.n.Accts[0].String(), DenomPairTakerFee: []pmtypes.DenomPairTakerFee{{TokenInDenom: in, TokenOutDenom: out, TakerFee: dec(fee)}}}
 	res := w.deliver(i, "setfee", msg, st.F)
 	w.run.Logf("%d setfee %s>%s=%s f=%s -> %s err=%v", i, in, out, fee, st.F, res.Outcome, res.Err)
